@@ -240,6 +240,7 @@ class Generated:
         self.functions = {}      # fn name -> dict(file, first_line, last_line, props, out_first, out_last)
         self.labels = {}         # label -> dict(fn, out_lines:[...])
         self.rewrites = []       # dicts
+        self.approx_anchors = []  # anchors matched approximately (the anchored line was edited)
         self.splices = []        # dicts
         self.items = []          # dicts (file, kind, name, repo_lines, sha256)
         self.files = {}          # file -> sha256
@@ -509,6 +510,21 @@ def emit_extract(gen, ex, repo_root, unit):
                     off += len(ln_) + 1
             else:
                 occ = [m.start() for m in ws_pattern(anchor).finditer(item)]
+            if ma is None and len(occ) == 0 and not anchor.startswith('='):
+                # the anchored line was edited: fall back to the one line of the function that is clearly the closest to the
+                # anchor text (similarity >= 0.72 and well ahead of the runner-up); recorded in gen.approx_anchors
+                import difflib
+                norm = lambda t: ' '.join(t.split())
+                cands, off = [], 0
+                for ln_ in item.split('\n'):
+                    if ln_.strip():
+                        cands.append((difflib.SequenceMatcher(None, norm(anchor), norm(ln_)).ratio(), off + (len(ln_) - len(ln_.lstrip())), ln_.strip()))
+                    off += len(ln_) + 1
+                cands.sort(reverse=True)
+                if cands and cands[0][0] >= 0.72 and (len(cands) == 1 or cands[0][0] - cands[1][0] >= 0.12):
+                    occ = [cands[0][1]]
+                    gen.approx_anchors.append({'item': ex.name, 'anchor': anchor, 'matched': cands[0][2], 'similarity': round(cands[0][0], 2),
+                                               'at': '%s:%d' % (unit, b.lineno)})
             if ma is None and len(occ) != 1:
                 raise ExtractError('lost anchor: %r occurs %d times in fn %s (%s:%d)'
                                    % (anchor, len(occ), ex.name, unit, b.lineno))
